@@ -37,6 +37,10 @@ def parse_script(spec: Iterable[Any]) -> list[Outcome]:
         elif isinstance(s, str) and s.startswith('temp'):
             d = s[4:]
             out.append(temp(float(d) if d else 3))
+        elif isinstance(s, str) and s.startswith('ok+status'):
+            out.append(Outcome('ok', edit={'status': {'foreign': s[9:] or 'x'}}))
+        elif isinstance(s, str) and s.startswith('ok+label'):
+            out.append(Outcome('ok', edit={'metadata': {'labels': {'foreign': s[8:] or 'x'}}}))
         elif isinstance(s, str) and s.startswith('ok+sleep'):
             out.append(Outcome('ok', sleep=float(s[8:])))
         else:
